@@ -2050,7 +2050,6 @@ theorem delete_run {L : OpId} {d : Doc} {hd : Ts} {pn : DNode} {slots : List (Ts
       exact (this o ho).mono (Nat.zero_le _)
   refine ⟨_, hrun, hstp, ?_⟩
   generalize (foldTomb d l).set { pn with kind := .arr slots (size - num) } = D at hstp ⊢
-  rw [and_comm, and_assoc]
   have hFnd' := hFnd
   rw [hsplit] at hFnd'
   simp only [List.map_append, List.nodup_append] at hFnd'
@@ -2064,7 +2063,6 @@ theorem delete_run {L : OpId} {d : Doc} {hd : Ts} {pn : DNode} {slots : List (Ts
       rcases List.mem_append.mp hs with hs | hs
       · exact absurd rfl (hFnd'.2.2 s.2 (List.mem_map.mpr ⟨s, hs, rfl⟩) s.2 (List.mem_append_left _ hm))
       · exact absurd rfl (hFnd'.2.1.2.2 s.2 hm s.2 (List.mem_map.mpr ⟨s, hs, rfl⟩))
-  refine ⟨hnone, ?_⟩
   have hsz := I.sizes hd pn hp
   rw [hk] at hsz
   simp only [SizeOK] at hsz ⊢
@@ -2092,7 +2090,6 @@ theorem delete_run {L : OpId} {d : Doc} {hd : Ts} {pn : DNode} {slots : List (Ts
       have : s.2 ∈ l.map (·.1.2) := tmOf_isSome_iff.mp (by simp [h])
       rw [hlmap] at this
       exact absurd this hs2
-  rw [h1]
   have e1 : (F.take pos).filter (fun s => (tmOf l s.2).isNone) = F.take pos := by
     rw [List.filter_eq_self]
     intro s hs
@@ -2109,8 +2106,9 @@ theorem delete_run {L : OpId} {d : Doc} {hd : Ts} {pn : DNode} {slots : List (Ts
     conv_lhs => rw [hsplit]
     rw [List.filter_append, List.filter_append, e1, e2, e3]
     simp
-  rw [hfl]
-  refine ⟨rfl, ?_⟩
+  have hfilt : slots.filter (slotLive D) = F.take pos ++ F.drop (pos + num) := by rw [h1, hfl]
+  refine ⟨?_, hfilt, hnone⟩
+  rw [hfilt]
   rw [hF] at hsz
   rw [hsz]
   simp only [List.length_append, List.length_take, List.length_drop]
